@@ -45,7 +45,16 @@ def run_shard_inproc(prop, tier, seed, shard, nshards, out):
     rng = random.Random('%s/%s/%d/%d' % (prop, tier, seed, shard))
     err = None
     try:
-        mod.run(rec, rng, tier)
+        from vt.props import common
+        rc = common.replay_case()
+        if isinstance(rc, dict) and rc.get('cls') == 'repo_test' and hasattr(mod, 'install'):
+            mod.install(rec)
+            common.run_repo_tests(rec, seed, nodeid=rc['nodeid'], fixed_seed=rc.get('random_seed'))
+        else:
+            mod.run(rec, rng, tier)
+            # one interpreter per check also runs the repository's own tests under the same monitors
+            if rc is None and hasattr(mod, 'install') and shard == nshards - 1 and getattr(mod, 'REPO_TESTS', True) and (tier == 'thorough' or os.environ.get('VT_REPO_TESTS') == '1'):
+                common.run_repo_tests(rec, seed)
     except BaseException as e:      # the harness itself failed: inconclusive, never a verdict
         import traceback
         err = traceback.format_exc()
